@@ -62,8 +62,9 @@ type interpreter struct {
 	funcCache          map[string]*ssa.Function
 	called             map[*ssa.Function]int
 
-	tb   *smt.Table
-	sess *smt.Session
+	tb       *smt.Table
+	sess     *smt.Session
+	tabCache map[string][]uint64
 
 	p     *pathState
 	sched *scheduler
@@ -147,7 +148,7 @@ func (fr *frame) asInt(v value) int64 {
 }
 
 var initDeny = map[string]bool{
-	"runtime": true, "os": true, "syscall": true, "reflect": true, "unsafe": true,
+	"runtime": true, "os": true, "syscall": true, "unsafe": true,
 	"sync": true, "sync/atomic": true, "testing": true, "net": true, "os/signal": true,
 	"runtime/debug": true, "runtime/pprof": true, "runtime/trace": true, "log": true,
 	"crypto/rand": true, "math/rand": true, "math/rand/v2": true, "os/exec": true, "os/user": true,
@@ -514,6 +515,8 @@ func call(i *interpreter, caller *frame, callpos token.Pos, fn value, args []val
 		return callSSA(i, caller, callpos, fn.Fn, args, fn.Env)
 	case *ssa.Builtin:
 		return callBuiltin(caller, callpos, fn, args)
+	case *nativeFunc:
+		return fn.fn(caller, args)
 	}
 	panic(fmt.Sprintf("cannot call %T", fn))
 }
@@ -729,6 +732,7 @@ func newInterpreter(prog *ssa.Program, cfg *Config) (*interpreter, error) {
 		funcCache: make(map[string]*ssa.Function),
 		called:    make(map[*ssa.Function]int),
 		tb:        smt.NewTable(),
+		tabCache:  map[string][]uint64{},
 	}
 	runtimePkg := prog.ImportedPackage("runtime")
 	if runtimePkg == nil {
